@@ -13,7 +13,7 @@ func init() {
 		},
 		Real:      []string{"pkg/serverinit (Load, genLowLevelConfig, InstallHandlers)", "pkg/blobserver/handlers, gethandler, protocol", "pkg/blobserver (Receive, hub, WaitForBlob)", "pkg/blobserver/{memory,localdisk,diskpacked,blobpacked,cond,replica}", "pkg/index over memory/leveldb/kvfile/sqlite, pkg/server sync-to-index loop, root/discovery, jsonsign", "pkg/client (discovery, Upload, ReceiveBlob, StatBlobs, Fetch, EnumerateBlobs*)", "pkg/auth (userpass)", "net/http client, ServeMux, ServeContent", "scratch directories for disk stores and index files"},
 		Stub:      []string{"SimTransport instead of sockets and net/http.Server (response head after 4 KiB, Flush or handler return; Content-Length added when the handler finished first)", "synctest fake clock", "sync / go4.org/syncutil import-path shims (Cond-based locks, Gate, Once)", "os shim under diskpacked (pass-through)"},
-		MustReach: []string{"continueAfter-followed", "empty-last-page", "stat-1000", "stat-1001", "multipart-several-parts", "put-no-content-length", "longpoll-stat-woke", "longpoll-timed-out", "longpoll-enum-immediate", "concurrent-group", "upload-skipped-by-stat"},
+		MustReach: []string{"continueAfter-followed", "empty-last-page", "stat-1000", "stat-1001", "multipart-several-parts", "put-no-content-length", "longpoll-stat-woke", "longpoll-timed-out", "longpoll-stat-immediate", "concurrent-group", "upload-skipped-by-stat"},
 	}
 	specs["C02"] = &propSpec{
 		ID: "C02", Engine: "httpsim", Level: "exploration",
